@@ -114,7 +114,7 @@ func genApl(r *Rng, tier string) *Enc {
 		workers := min(n, runtime.NumCPU())
 		waiting := map[int]bool{}
 		delivered := 0
-		deadline := time.After(20 * time.Second)
+		deadline := time.After(10 * time.Second)
 	loop:
 		for delivered < n {
 			// wait until every worker that can be at the gate is at the gate
@@ -153,7 +153,7 @@ func genApl(r *Rng, tier string) *Enc {
 	if !hang {
 		select {
 		case out = <-done:
-		case <-time.After(20 * time.Second):
+		case <-time.After(10 * time.Second):
 			hang = true
 		}
 	}
@@ -161,6 +161,7 @@ func genApl(r *Rng, tier string) *Enc {
 	e.Tok("SCHED")
 	e.Ints(order)
 	if hang {
+		hangDetected = true
 		e.Tok("R", "hang")
 	} else {
 		e.Tok("R", out.status)
